@@ -230,7 +230,7 @@ func VerifC17_P4() {
 // free-text bound of P4, e.g. "//...:l" or "//a/a/...:l")
 func VerifC17_P4_structured() {
 	lead := []string{"//", ""}[sym.Choice("lead", 2)]
-	pkg := sym.StringNAlpha("pkg", bound(3, 4), "a/")
+	pkg := sym.StringNAlpha("pkg", bound(4, 5), "a/")
 	rec := []string{"", "...", "/..."}[sym.Choice("recursive", 3)]
 	filter := ""
 	if sym.Choice("filter", 2) == 1 {
